@@ -453,7 +453,6 @@ def shrink(case: dict[str, Any], kind: str, budget: int = 150) -> dict[str, Any]
 
 def run_batch(arg: tuple[int, str, list[int]]) -> list[dict[str, Any]]:
     """One process: one compiler, a batch of cases."""
-    from vlib.compiledrv import new_compiler
     seed, tier, idxs = arg
     wd = TIERS[tier]['watchdog']
     out = []
@@ -462,7 +461,7 @@ def run_batch(arg: tuple[int, str, list[int]]) -> list[dict[str, Any]]:
         for idx in idxs:
             case = make_case(seed, idx, tier)
             if comp is None:
-                comp = new_compiler(1)
+                comp = wl.safe_compiler(1)
             t0 = time.monotonic()
             try:
                 r = run_one(comp, case, wd)
@@ -471,10 +470,7 @@ def run_batch(arg: tuple[int, str, list[int]]) -> list[dict[str, Any]]:
                      'err': '%s: %s @ %s' % (type(e).__name__, str(e)[:200], core.short_tb(e))}
             r['wall'] = time.monotonic() - t0
             if r['rebuild']:
-                try:
-                    comp.close()
-                except Exception:  # noqa
-                    pass
+                wl.close_compiler(comp)
                 comp = None
             for x in r['w']:
                 x['case'] = case
@@ -486,10 +482,7 @@ def run_batch(arg: tuple[int, str, list[int]]) -> list[dict[str, Any]]:
             out.append(r)
     finally:
         if comp is not None:
-            try:
-                comp.close()
-            except Exception:  # noqa
-                pass
+            wl.close_compiler(comp)
     return out
 
 
@@ -558,7 +551,12 @@ def merge(run: core.Run, r: dict[str, Any], shrunk_kinds: set[str]) -> None:
             # keep later witnesses of an already documented kind small
             if len(x['case']['circuit']['ops']) > 60:
                 x = dict(x, case=dict(x['case'], circuit={'omitted': 'see seed/idx', 'num_ops': len(x['case']['circuit']['ops'])}))
+        KIND_FILES[x['kind']] += 1
+        run.max_violation_files = 10 ** 6 if KIND_FILES[x['kind']] <= 3 else 0
         run.violation(x)
+
+
+KIND_FILES: Counter = Counter()
 
 
 def main(tier: str, seed: int, replay: str | None = None) -> int:
@@ -595,16 +593,15 @@ def main(tier: str, seed: int, replay: str | None = None) -> int:
 
 
 def do_replay(run: core.Run, path: str) -> int:
-    from vlib.compiledrv import new_compiler
     w = json.load(open(path))['witness']
     case = w['case']
     if 'ops' not in case.get('circuit', {}):
         case = make_case(run.seed, int(case['idx']), run.tier)
-    comp = new_compiler(2)
+    comp = wl.safe_compiler(2)
     try:
         r = run_one(comp, case, 300)
     finally:
-        comp.close()
+        wl.close_compiler(comp)
     run.count('compiled:' + case['partitioner'])
     run.case(('replay', case['partitioner'], case['args'], case['circuit']))
     run.case(('replay2',))
